@@ -677,20 +677,21 @@ func ConvertToSameType(leftType, rightType interface{}) (interface{}, interface{
 	}
 
 	var err error
+	convertedLeft, convertedRight := leftType, rightType
 
 	if unsafe.Sizeof(leftType) > unsafe.Sizeof(rightType) {
-		rightType, err = ConvertExpToType(rightType, leftType)
+		convertedRight, err = ConvertExpToType(rightType, leftType)
 	} else {
-		leftType, err = ConvertExpToType(leftType, rightType)
+		convertedLeft, err = ConvertExpToType(leftType, rightType)
 	}
 
 	if err != nil {
-		// convert both to strings
-		leftType = fmt.Sprint(leftType)
-		rightType = fmt.Sprint(rightType)
+		// convert both ORIGINAL values to strings (a failed conversion returns
+		// the zero value, which must not take part in the comparison)
+		return fmt.Sprint(leftType), fmt.Sprint(rightType)
 	}
 
-	return leftType, rightType
+	return convertedLeft, convertedRight
 }
 
 // If you add a new field here or change the order of LogFileData, update the columnNames in logfileutils.go
